@@ -58,7 +58,7 @@ class C25(DiffProp):
     rule = ("states = programs whose default inference and whose ground program (evaluated directly) are correct; "
             "transitions = export variants executed; DIMACS model sets compared for CNFs with <= 12 variables")
     families = {"quick": [("FDUP", 4), ("F3.2", 96), ("F2.3", 192), ("F1.3s", 32), ("F1.2q", 96), ("F3.1", 8), ("F2.2", 8), ("F1.1", 4), ("F1.1dup", 4)],
-                "thorough": [("F1.2q", 96), ("F1.1dup", 4), ("FDUP", 4), ("F3.3", 512), ("F2.4", 256), ("F3.2", 96), ("F2.3", 192), ("F1.3s", 32), ("F1.2", 128),
+                "thorough": [("F1.2q", 96), ("F1.1dup", 4), ("FDUP", 4), ("F3.3/8", 64), ("F2.4/2", 128), ("F3.2", 96), ("F2.3", 192), ("F1.3s", 32), ("F1.2", 128),
                              ("F3.1", 8), ("F2.2", 8), ("F1.1", 4)]}
     budget = {"quick": 300, "thorough": 2400}
     include_negcycle = False
